@@ -18,6 +18,7 @@ func genSharingCase(r *rand.Rand, cfg Cfg) Case {
 	nroot := 0
 	n := 15 + r.Intn(60)
 	live := map[int]map[uint64]uint64{0: {}}
+	rootMaps := map[int]map[uint64]uint64{}
 	for i := 0; i < n; i++ {
 		s := pick(r, slots)
 		m := live[s]
@@ -38,6 +39,15 @@ func genSharingCase(r *rand.Rand, cfg Cfg) Case {
 				}
 			}
 			k := pick(r, ks)
+			if r.Intn(3) == 0 {
+				// remove the key of the highest layer: the top node may become entry-less and the
+				// tree is then rebuilt one level lower out of its (possibly shared) children
+				for _, u := range ks {
+					if cfg.RefLayer(u) > cfg.RefLayer(k) {
+						k = u
+					}
+				}
+			}
 			ops = append(ops, opDel(s, k, m[k]))
 			delete(m, k)
 		case x < 78:
@@ -51,6 +61,7 @@ func genSharingCase(r *rand.Rand, cfg Cfg) Case {
 			s = d
 		case x < 90:
 			ops = append(ops, fmt.Sprintf("root %d %d", s, nroot))
+			rootMaps[nroot] = copyMap(m)
 			nroot++
 		default:
 			if nroot == 0 {
@@ -59,8 +70,7 @@ func genSharingCase(r *rand.Rand, cfg Cfg) Case {
 			ri := r.Intn(nroot)
 			d := r.Intn(6)
 			ops = append(ops, fmt.Sprintf("load %d %d", ri, d))
-			// contents unknown to the generator: rebuild lazily from the universe on use
-			live[d] = map[uint64]uint64{}
+			live[d] = copyMap(rootMaps[ri])
 			if !has[d] {
 				has[d] = true
 				slots = append(slots, d)
